@@ -105,6 +105,17 @@ func addrOf(b []byte) netip.Addr {
 }
 
 func apply(l *fastlog.Line, tok string) *fastlog.Line {
+	if strings.HasPrefix(tok, "st=") {
+		if tok == "st=n" {
+			return l.Struct(nil)
+		}
+		if tok == "st=n2" {
+			var p *opsLogger
+			return l.Struct(p)
+		}
+		o := opsLogger(strings.Split(tok[3:], "+"))
+		return l.Struct(&o)
+	}
 	f := strings.Split(tok, ":")
 	name := ""
 	if len(f) > 1 && f[1] != "n" {
@@ -183,7 +194,18 @@ func apply(l *fastlog.Line, tok string) *fastlog.Line {
 	case "ba":
 		return l.ByteArray(name, lib.UnHex(f[2]))
 	}
+
 	panic("harness: unknown op " + tok)
+}
+
+// opsLogger: a FastLog implementation that performs the given calls
+type opsLogger []string
+
+func (o *opsLogger) FastLog(l *fastlog.Line) *fastlog.Line {
+	for _, t := range *o {
+		l = apply(l, t)
+	}
+	return l
 }
 
 func obsText(b []byte) string { return "t:" + hex.EncodeToString(b) }
@@ -436,6 +458,17 @@ func (g *gen) array(big bool) string {
 }
 
 func (g *gen) op(arrays bool) string {
+	if g.rng.Chance(4) {
+		if g.rng.Chance(25) {
+			return []string{"st=n", "st=n2"}[g.rng.Intn(2)]
+		}
+		k := 1 + g.rng.Intn(3)
+		ops := make([]string, k)
+		for i := range ops {
+			ops[i] = g.scalar()
+		}
+		return "st=" + strings.Join(ops, "+")
+	}
 	if arrays && g.rng.Chance(25) {
 		return g.array(g.rng.Chance(10))
 	}
@@ -463,6 +496,7 @@ func main() {
 	r.Register("write", func(a []string) string { return runLine(a, true) })
 	r.Register("msg", runMsg)
 	registerSpec(r)
+	registerViews(r)
 	if r.Replayed() {
 		return
 	}
@@ -647,7 +681,9 @@ func main() {
 		}
 	}
 
-	// 7. String/FastLog of views and table entries
+	// 7. String/FastLog of views and table entries: exact text against the model's call lists, then the
+	//    no-panic oracle over the remaining views
+	viewModelCases(g)
 	viewCases(g)
 }
 
